@@ -367,6 +367,30 @@ def worlds(draw, ninst=3, hostile_names=True, split_paths=False, foreign_ids=Fal
                 foreign_instances = [{"f1": draw(inst_scalar)}, {"f2": draw(inst_scalar)}]
             else:
                 foreign_instances = []
+    lists = [n for n in defs if isinstance(defs[n], dict) and isinstance(defs[n].get("allOf", defs[n].get("extends")), list)]
+    if lists and not exotic and isinstance(root.get("properties", {}), dict) and draw(st.integers(0, 3)) == 0:
+        # a pointer into an ARRAY of subschemas: canonical indices designate an element, anything else nothing
+        n = draw(st.sampled_from(sorted(lists)))
+        kw = "allOf" if "allOf" in defs[n] else "extends"
+        tok = draw(st.sampled_from(["0", "1", "%31", "1", "0", "1%0A", "01", "-", "1%D9%A0", "2", "%20" + "1", "+1"]))
+        root.setdefault("properties", {})["bi"] = {"$ref": "#" + optr.encode(["definitions", n, kw]) + "/" + tok}
+        classes.append("array-index-ref:" + ("canonical" if tok in ("0", "1", "%31") else "not-an-index"))
+    coll = [(u, r) for u in sorted(docs) if via[u] != "missing" and root_base.startswith("http") and not exotic
+            for r in relative_forms(doc_uri(root_base), u)[:1]]
+    if foreign_ids and coll and draw(st.integers(0, 2)) > 0 and isinstance(root.get("properties", {}), dict):
+        # a subschema of the root whose (relative) id spells the URL of a retrievable document, and references to
+        # that URL from two different scopes: whichever resource the implementation picks, it must pick the same
+        # one every time (again only for checks that compare the implementation with itself)
+        cu, crel = draw(st.sampled_from(coll))
+        lf = dict(draw(leaf))
+        lf[idkw] = crel
+        props = root.setdefault("properties", {})
+        props["e3"] = lf
+        props["e1"] = {"$ref": cu}
+        props["e2"] = {idkw: "http://other.test/q/deep/", "additionalProperties": {"$ref": cu}}
+        classes.append("embedded-id-spells-a-document-url")
+        v1, v2 = draw(inst_scalar), draw(inst_scalar)
+        foreign_instances = list(foreign_instances) + [{"e1": v1}, {"e2": {"z": v1}}, {"e1": v2, "e2": {"z": v2}}]
     if draw(st.integers(0, 7)) == 0:
         # the OTHER draft family's id keyword is an unknown keyword here: it must not change any base URI
         other = "$id" if idkw == "id" else "id"
